@@ -433,6 +433,28 @@ pub fn run_history(rep: &mut Report, prop: &str, rng: &mut Rng, ei: usize, li: u
     }
 }
 
+/// capacities above what the prefix can count (PodU16: 65536 and more, u8: 256 and more) are fine as long
+/// as the stored length fits: read-only, mutable and init must all accept
+fn boundary_capacity(rep: &mut Report) {
+    for (li, cap) in [(0usize, 65_535usize), (0, 65_536), (0, 65_537), (0, 70_000), (4, 255), (4, 256), (4, 257), (4, 1000), (5, (1 << 24) + 1)] {
+        let w = PREF_SIZE[li];
+        for stored in [0usize, 1, cap.min((1usize << (8 * w)) - 1)] {
+            let mut buf = vec![0u8; w + cap];
+            buf[..w].copy_from_slice(&(stored as u64).to_le_bytes()[..w]);
+            let ro = dispatch!(0usize, li, g_open_ro(&mut buf));
+            let mu = dispatch!(0usize, li, g_open_mut(&mut buf));
+            let mut fresh = vec![0u8; w + cap];
+            let ini = dispatch!(0usize, li, g_init(&mut fresh));
+            rep.count("boundary:capacity-above-prefix-max");
+            rep.monitor_runs += 1;
+            if ro != Res::Ok((stored, cap)) || mu != Res::Ok((stored, cap)) || ini != Res::Ok((0, cap)) {
+                rep.violate("open-capacity-above-prefix-max", "a buffer whose capacity exceeds what the length prefix can count must open (read-only, mutably, init) as long as the stored length fits",
+                    serde_json::json!({"prefix": PREF_NAMES[li], "capacity": cap, "stored": stored, "unpack": format!("{:?}", ro), "unpack_mut": format!("{:?}", mu), "init": format!("{:?}", ini)}).to_string());
+            }
+        }
+    }
+}
+
 /// the PodU16 boundary: stored length 65534/65535 with capacity 65535/65536 (D2)
 fn boundary_u16(rep: &mut Report, prop: &str) {
     for (cap, stored) in [(65536usize, 65535usize), (65535, 65534), (65535, 65535), (65536, 65534)] {
@@ -471,6 +493,7 @@ pub fn run_c09(ctx: &Ctx) -> Report {
     ]);
     let mut rng = Rng::new(ctx.seed.wrapping_mul(131).wrapping_add(9));
     boundary_u16(&mut rep, "C09");
+    boundary_capacity(&mut rep);
     // size_of: exactness and overflow
     for ei in 0..NELEM {
         for li in 0..NPREF {
@@ -520,10 +543,22 @@ pub fn run_c09(ctx: &Ctx) -> Report {
 }
 
 /// stored-length candidates for an open, truncated to the prefix width
-fn stored_candidates(cap: usize, li: usize) -> Vec<u128> {
+fn stored_candidates(cap: usize, li: usize, szt: usize) -> Vec<u128> {
     let w = PREF_SIZE[li];
     let max: u128 = if w == 16 { u128::MAX } else { (1u128 << (8 * w)) - 1 };
     let mut v: Vec<u128> = vec![0, cap as u128, cap as u128 + 1, max, 1u128 << 63, (1u128 << 64) - 1, 1u128 << 64, u128::MAX, 1];
+    // stored lengths whose byte count (length * element size) wraps around 2^64 or 2^32 to something that fits
+    if szt > 0 {
+        for modulus in [1u128 << 64, 1u128 << 32] {
+            for j in 1..=2u128 {
+                for b in 0..=(cap * szt + szt) as u128 {
+                    if (modulus * j + b) % szt as u128 == 0 {
+                        v.push((modulus * j + b) / szt as u128);
+                    }
+                }
+            }
+        }
+    }
     for x in v.iter_mut() {
         *x &= max;
     }
@@ -536,6 +571,7 @@ pub fn run_c10(ctx: &Ctx) -> Report {
     rep.expect_classes(&["open:ok", "open:err", "open:known-panic", "open:misaligned", "open:not-multiple", "open:too-short", "open:len>cap"]);
     let mut rng = Rng::new(ctx.seed.wrapping_mul(137).wrapping_add(10));
     let mut count = 0usize;
+    boundary_capacity(&mut rep);
     let stride = ctx.scale(97, 11);
     for ei in 0..NELEM {
         for li in 0..NPREF {
@@ -545,7 +581,7 @@ pub fn run_c10(ctx: &Ctx) -> Report {
             for n in 0..=maxlen {
                 for off in 0..16usize {
                     let cap = if n >= h && szt > 0 { (n - h) / szt } else { 0 };
-                    for stored in stored_candidates(cap, li) {
+                    for stored in stored_candidates(cap, li, szt) {
                         count += 1;
                         let mut arena = Arena([0u8; 1024]);
                         for b in arena.0[..off + n + 4].iter_mut() {
